@@ -194,6 +194,7 @@ theorem history_independent (ps : Pairs) (seg : Nat → Nat → Nat → V6) (P :
     | read i => simp [specOf] at hs
     | copyTo i b => simp [specOf] at hs
     | asFrame i x => simp [specOf] at hs
+    | asFrameEph i x => simp [specOf] at hs
 
 /-- **A read after an in-place write returns what a fresh object returns**: after `objs[i].frame = b` the object holds
 exactly the vector `objs[i].copy(frame=b)` would have returned, and is in frame `b`. -/
